@@ -88,9 +88,9 @@ def main(chk):
         tasks.append((name, list(pc), claim, tmo, core, info))
 
     generic_seen = []
-    def explore(m, term, X, face_index=0, edge=(0, 0), extra=(), max_paths=64):
+    def explore(m, term, X, face_index=0, edge=(0, 0), extra=(), max_paths=64, params=None):
         A = [S.cmp('gt', M.signed_volume6(X, m['faces']), S.ZERO)] + list(extra)
-        ctl, res = sess.explore('h_c02_forces', M.flat(X) + P, iin_for(m, term, face_index, edge), assumptions=A, zctx=z,
+        ctl, res = sess.explore('h_c02_forces', M.flat(X) + (params or P), iin_for(m, term, face_index, edge), assumptions=A, zctx=z,
                                 max_paths=max_paths, branch_timeout_ms=2000, generic_position=True)
         chk.absorb(session=sess, ctl=ctl)
         chk.log('%s term %d face %d edge %r: %d paths %s' % (m['name'], term, face_index, edge, len(res), ctl.stats))
@@ -133,10 +133,14 @@ def main(chk):
                     dv = PC.to_node(pdiff(PC, v6, 'x%d_%d' % (i, k)))
                     add('%s/F[%d][%d]=p*dV/dx' % (tag, i, k), pc, S.cmp('eq', S.R(F[i][k]), S.mul(pressure, S.div(dv, S.const(6)))), True, info)
         # ---- surface tension + membrane elasticity ----
-        for (tr, pc, r) in explore(m, 1, X):
+        # twice: all parameters symbolic (exact comparisons of a parameter with 0 are then taken on their generic side), and the
+        # parameter set "both surface tensions exactly zero, area elasticity on" that the property names explicitly
+        Pz = list(P); Pz[9] = 0.0; Pz[11] = 0.0
+        runs = [(tr, pc, r, P, '') for (tr, pc, r) in explore(m, 1, X)] + [(tr, pc, r, Pz, ' (tensions zero)') for (tr, pc, r) in explore(m, 1, X, params=Pz)]
+        for (tr, pc, r, Pcur, suffix) in runs:
             F, (vol, area, _, _) = forces_of(r, nn)
-            tag = '%s/tension' % name
-            info = {'mesh': name, 'term': 1}
+            tag = '%s/tension%s' % (name, suffix)
+            info = {'mesh': name, 'term': 1, 'zero_tension': bool(suffix)}
             momentum_obligations(tag, X, pc, F, True, info)
             A0 = S.uf('cbrt', S.mul(S.mul(iso, S.R(vol)), S.R(vol)))
             gamma_el = S.mul(S.div(k_area, A0), S.sub(S.div(S.R(area), A0), S.ONE))
@@ -150,7 +154,7 @@ def main(chk):
                         dq = PC.to_node(pdiff(PC, PC.of(q), 'x%d_%d' % (i, k)))
                         # dA_f/dx = d(1/2 sqrt(q))/dx = dq / (4 sqrt(q))
                         dA = S.div(dq, S.mul(S.const(4), S.sqrt(q)))
-                        geff = S.add(P[9 + 2 * ft[fi]], gamma_el)
+                        geff = S.add(S.R(Pcur[9 + 2 * ft[fi]]), gamma_el)
                         tot = S.add(tot, S.mul(geff, dA))
                     add('%s/F[%d][%d]=-sum gamma_eff dA/dx' % (tag, i, k), pc, S.cmp('eq', S.R(F[i][k]), S.neg(tot)), True, info)
 
@@ -244,6 +248,9 @@ def replay(native, info, model, nm):
         coords = [c for v in range(nn) for c in pts[v]]
     params = [float(Fraction(model.get(p, 1))) for p in PARAMS]
     params[5] = 1e9 if 'max_pressure' not in model else params[5]
+    if info.get('zero_tension'):
+        # the obligation does not depend on the values of the elastic parameters (the solver's model may pick degenerate ones): fixed sane values
+        params[9] = 0.0; params[11] = 0.0; params[1] = 1.0; params[2] = 150.0
     iin = iin_for(m, info['term'], info.get('face', 0), info.get('edge', (0, 0)))
     q = native.call('h_c02_forces', coords + params, iin)
     if q['status'] != 0 or len(q['d']) < 3 * nn:
@@ -277,6 +284,14 @@ def replay(native, info, model, nm):
             expect = params[0] * (vp - vm) / (2 * h)
             if abs(expect - F[i][k]) > 1e-5 * max(fmax, abs(expect)):
                 problems.append('pressure force %.9g vs p*dV/dx (finite difference) %.9g' % (F[i][k], expect))
+        elif info.get('zero_tension'):
+            # only membrane elasticity acts: F = -gamma_el dA/dx with gamma_el = k/A0 (A/A0 - 1), A0 = cbrt(iso V^2), A the total area
+            vol, area = q['d'][3 * nn:3 * nn + 2]
+            A0 = (params[2] * vol * vol) ** (1.0 / 3.0)
+            gam = params[1] / A0 * (area / A0 - 1.0)
+            expect = -gam * (ap - am) / (2 * h)
+            if abs(expect - F[i][k]) > 1e-5 * max(fmax, abs(expect), 1e-300):
+                problems.append('with zero surface tensions the nodal force is %.9g, membrane elasticity alone gives -gamma_el dA/dx = %.9g' % (F[i][k], expect))
         else:
             res['note'] = 'tension law compared by the solver only; finite-difference replay needs per-face areas'
             # total-area derivative with uniform tension as a sanity replay
